@@ -608,3 +608,106 @@ Contract(
     note="verified against the body; callers use the abstract contract",
     props=("C06",),
 )
+
+
+# =================================================================================================
+# TaskGraph.cancel, the body (C06 / C07): what the cascade does to the tasks it returns and to all the others.
+# (WHICH tasks it reaches - the downstream closure up to joins with a live parent - is decided by the bounded stand-in.)
+# =================================================================================================
+from contracts.c_tasks import VIRTUAL as _VIRTUAL, RELEASED as _RELEASED, wf_task as _wf_task  # noqa: E402
+from contracts.c_utils import OptET as _OptET  # noqa: E402
+
+
+def _tgc_inv(c, L):
+    g, task, time = c.arg("self"), c.arg("task"), c.arg("time")
+    h = c.post
+    can, fr_ = L.var("cancelled_tasks"), L.var("frontier")
+    x, j = z3.Int(H.fresh_name("tc_x")), z3.Int(H.fresh_name("tc_j"))
+    same = lambda f: h.rd(x, TASK, f)[1] == c.pre.rd(x, TASK, f)[1]
+    return {
+        "lists_fresh": z3.And(can >= c.alloc0, fr_ >= c.alloc0, can != fr_, can < c.run.cur_alloc(), fr_ < c.run.cur_alloc()),
+        # every task collected so far is CANCELLED now, at the given time, and was not running
+        "collected_are_cancelled_now": z3.ForAll(
+            [x],
+            z3.Implies(
+                h.l_mem(TaskList, can, x),
+                z3.And(
+                    x > 0,
+                    x < c.alloc0,
+                    task_state(h, x) == CANCELLED,
+                    h.rd(x, TASK, "_cancellation_time")[1] == T.opt_some(_OptET, time),
+                    z3.Or(task_state(c.pre, x) == _VIRTUAL, task_state(c.pre, x) == _RELEASED, task_state(c.pre, x) == SCHEDULED),
+                ),
+            ),
+            patterns=[h.l_mem(TaskList, can, x)],
+        ),
+        # every other pre-existing task is exactly as it was
+        "others_untouched": z3.ForAll(
+            [x],
+            z3.Implies(z3.And(0 < x, x < c.alloc0, z3.Not(h.l_mem(TaskList, can, x))), z3.And(same("_state"), same("_cancellation_time"), same("_probability"), same("_remaining_time"))),
+            patterns=[task_state(h, x)],
+        ),
+        "frontier_holds_old_tasks": z3.ForAll([j], z3.Implies(z3.And(0 <= j, j < h.c_len(TaskList, fr_)), z3.And(h.l_elem(TaskList, fr_, j) > 0, h.l_elem(TaskList, fr_, j) < c.alloc0)), patterns=[h.l_elem(TaskList, fr_, j)]),
+        "start_task_first": z3.Implies(z3.And(z3.Not(h.l_mem(TaskList, can, task)), task_state(h, task) != CANCELLED), z3.And(h.c_len(TaskList, fr_) >= 1, h.l_elem(TaskList, fr_, 0) == task, h.c_len(TaskList, can) == 0, h.c_len(TaskList, fr_) == 1)),
+        "graph_untouched": z3.And(*[z3.Select(h.carr(Adj, p_)[1], g_children(c.pre, g)) == z3.Select(c.pre.carr(Adj, p_)[1], g_children(c.pre, g)) for p_ in ("len", "keys", "idx", "dom", "val")]),
+    }
+
+
+def _tgc_mod(c):
+    fr = c.run.frames[-1].env
+    can, fr_ = fr.get("cancelled_tasks"), fr.get("frontier")
+    out = {c.pre.fld_arr(TASK, f)[0]: ANY for f in ("_state", "_cancellation_time", "_probability", "_remaining_time")}
+    out[c.pre.carr(TaskList, "len")[0]] = [can.z, fr_.z]
+    out[c.pre.carr(TaskList, "elem")[0]] = [can.z, fr_.z]
+    out.update(_adj_mod(c, g_parents(c.pre, c.arg("self"))))
+    return out
+
+
+def _tgc_ens(c):
+    g, task, time = c.arg("self"), c.arg("task"), c.arg("time")
+    x = z3.Int(H.fresh_name("te_x"))
+    same = lambda f: c.post.rd(x, TASK, f)[1] == c.pre.rd(x, TASK, f)[1]
+    return {
+        "cancel.fresh_list": c.res >= c.alloc0,
+        # C06: every task reported cancelled IS cancelled, at this time, and was not running / finished (only before it runs)
+        "cancel.returned_are_cancelled_now": z3.ForAll(
+            [x],
+            z3.Implies(
+                c.post.l_mem(TaskList, c.res, x),
+                z3.And(
+                    x > 0,
+                    x < c.alloc0,
+                    task_state(c.post, x) == CANCELLED,
+                    c.post.rd(x, TASK, "_cancellation_time")[1] == T.opt_some(_OptET, time),
+                    z3.Or(task_state(c.pre, x) == _VIRTUAL, task_state(c.pre, x) == _RELEASED, task_state(c.pre, x) == SCHEDULED),
+                ),
+            ),
+            patterns=[c.post.l_mem(TaskList, c.res, x)],
+        ),
+        # C06: nothing else changes state: a task that is not reported keeps its state (no silent cancellation)
+        "cancel.unreported_tasks_untouched": z3.ForAll(
+            [x],
+            z3.Implies(z3.And(0 < x, x < c.alloc0, z3.Not(c.post.l_mem(TaskList, c.res, x))), z3.And(same("_state"), same("_cancellation_time"), same("_probability"), same("_remaining_time"))),
+            patterns=[task_state(c.post, x)],
+        ),
+        # the task itself is cancelled and reported unless it already was
+        "cancel.start_task_reported_unless_already_cancelled": c.post.l_mem(TaskList, c.res, task) == (task_state(c.pre, task) != CANCELLED),
+    }
+
+
+Contract(
+    TG + ".cancel#body",
+    params={"self": TGR, "task": S_.TASKR, "time": _ETy},
+    ret=TaskList,
+    requires=lambda c: {"maps_distinct": g_children(c.pre, c.arg("self")) != g_parents(c.pre, c.arg("self")), "task_given": z3.And(c.arg("task") > 0, c.pre.cls_tag(c.arg("task")) == CLASSES[TASK].code)},
+    may_raise=("ValueError", "AttributeError"),
+    raise_unchanged=False,
+    modifies=lambda c: dict({c.pre.fld_arr(TASK, f)[0]: ANY for f in ("_state", "_cancellation_time", "_probability", "_remaining_time")}, **_adj_mod(c, g_parents(c.pre, c.arg("self")))),
+    loops={0: Loop(inv=_tgc_inv, modifies=_tgc_mod)},
+    locals={"cancelled_tasks": TaskList, "frontier": TaskList},
+    ensures=_tgc_ens,
+    entry_facts=lambda c: [closed_graph(c, c.arg("self")), Fact("heap.closed", c.arg("task") < c.alloc0)],
+    allocates=True,
+    note="the soundness half of the cascade, verified against the body: reported => cancelled now and only before it ran; unreported => untouched; ValueError when a reached task is RUNNING / COMPLETED or not in the graph (not constrained). Which tasks are reached (closure, stop at joins with a live parent) is decided by the bounded taskgraph stand-in; callers use the abstract contract (closure as an uninterpreted predicate)",
+    props=("C06", "C07"),
+)
